@@ -463,6 +463,22 @@ struct RunOut {
     deviated: bool,
     panicked: bool,
     crash: Option<CrashProbe>,
+    /// the first moment of the run (see `FilterProbe`) at which the store's own `exists` / `get`
+    /// denied a key that its slabs held
+    filter_probe: Option<FilterProbe>,
+}
+
+/// "the filter knows every visible key" (Lean: `BloomProps.filter_knows_every_visible_key`), asked of
+/// the REAL store at every scheduling decision: the scheduler thread, while every worker is parked,
+/// reads each key of the programs through the router (`store.router()`: the slabs, what a scan
+/// lists) and through the store's own `exists` / `get` (which on a store with a Bloom filter answer
+/// "absent" from the filter alone).  A key the slabs hold must be found by both.
+#[derive(Clone, Debug)]
+struct FilterProbe {
+    /// number of atomic steps taken before the probe
+    at_step: usize,
+    key: Key,
+    what: String,
 }
 
 /// what a crash at one moment of the run would leave: taken by the scheduler thread while every
@@ -585,6 +601,7 @@ fn run_real(progs: &[Vec<Op>], wal: Option<SyncMode>, variant: u8, crash_at: Opt
     let mut slow_waiter = false;
     let ks0 = universe(progs);
     let mut crash: Option<CrashProbe> = None;
+    let mut filter_probe: Option<FilterProbe> = None;
     let short = |site: &str| site.trim_start_matches("store.").trim_start_matches("router.").trim_end_matches(".after_log").to_string();
     let trace = run_threads(tasks, |_n, parked| {
         // a waiter that is parked again has got the mutex and taken its log step: that step ran
@@ -622,6 +639,22 @@ fn run_real(progs: &[Vec<Op>], wal: Option<SyncMode>, variant: u8, crash_at: Opt
             slow_waiter = true; // the mutex is free and the waiter it woke has not parked yet
         }
         waiting_at.push(waiting.iter().map(|w| w.0).collect());
+        // every worker is parked (nobody is on its way to the log mutex): the slabs and the filter
+        // are frozen.  Whatever the router finds, the store's own `exists` / `get` must find.
+        if filter_probe.is_none() && waiting.is_empty() {
+            for k in &ks0 {
+                let kr = k.real();
+                let in_slabs = store.router().exists(&kr);
+                if in_slabs && !store.exists(&kr) {
+                    filter_probe = Some(FilterProbe { at_step: steps.len(), key: *k, what: format!("router().exists({kr:?}) = true (the slabs hold the key, a scan lists it), exists({kr:?}) = false") });
+                    break;
+                }
+                if k.cls() != Cls::C && store.router().get(&kr).is_ok() && store.get(&kr).is_err() {
+                    filter_probe = Some(FilterProbe { at_step: steps.len(), key: *k, what: format!("router().get({kr:?}) finds a value, get({kr:?}) = NotFound") });
+                    break;
+                }
+            }
+        }
         let emb_busy = |i: usize| {
             let x = &parked[i];
             exclusive_emb
@@ -768,6 +801,7 @@ fn run_real(progs: &[Vec<Op>], wal: Option<SyncMode>, variant: u8, crash_at: Opt
         deviated,
         panicked,
         crash,
+        filter_probe,
     }
 }
 
@@ -1104,6 +1138,65 @@ impl Gen {
     }
 }
 
+impl Gen {
+    /// the shape of history a Bloom filter in front of the slabs is sensitive to: keys that were
+    /// NEVER put before on the store (after its first put a key stays in the filter for good),
+    /// written by one or two threads - mostly `emb:` keys, whose put is three atomic steps - and
+    /// readers that first learn of a key (a scan of its class prefix, or of everything) and then ask
+    /// for it (exists, get), in that order
+    fn first_puts(&mut self, r: &mut Rng, durable: bool, nthreads: usize) -> Vec<Vec<Op>> {
+        let nkeys = 1 + r.below(3) as usize;
+        let keys: Vec<Key> = (0..nkeys).map(|i| Key::new(*r.pick(&[Cls::E, Cls::E, Cls::E, Cls::E, Cls::P, Cls::G, Cls::T, Cls::C]), 1 + i as u32)).collect();
+        let nwriters = 1 + r.below((nthreads - 1) as u64) as usize;
+        (0..nthreads)
+            .map(|t| {
+                let mut prog = Vec::new();
+                if t < nwriters {
+                    for _ in 0..(1 + r.below(2)) {
+                        let k = *r.pick(&keys);
+                        let dur = durable && r.chance(9, 10);
+                        match r.below(10) {
+                            0..=7 => {
+                                let v = self.val(r, k);
+                                prog.push(if dur { Op::PutD(k, v) } else { Op::Put(k, v) });
+                            }
+                            8 => prog.push(if dur { Op::DelD(k) } else { Op::Del(k) }),
+                            _ => prog.push(Op::Get(k)),
+                        }
+                    }
+                } else {
+                    for _ in 0..(1 + r.below(2)) {
+                        let k = *r.pick(&keys);
+                        if r.chance(4, 5) {
+                            prog.push(Op::Scan(Key::of(if r.chance(3, 4) { k.cls().prefix() } else { "" })));
+                        }
+                        if r.chance(4, 5) {
+                            prog.push(Op::Ex(k));
+                        }
+                        if r.chance(4, 5) || prog.is_empty() {
+                            prog.push(Op::Get(k));
+                        }
+                    }
+                }
+                prog
+            })
+            .collect()
+    }
+}
+
+/// a read by another thread (a scan, or exists / get of the key) took place entirely between the
+/// first and the last atomic step of the FIRST put of a key in the run
+fn reader_inside_first_put(hist: &[HRec]) -> bool {
+    hist.iter().any(|p| match p.op {
+        Op::Put(k, _) | Op::PutD(k, _) => {
+            p.ret > p.inv
+                && !hist.iter().any(|q| matches!(q.op, Op::Put(k2, _) | Op::PutD(k2, _) if k2 == k) && q.inv < p.inv)
+                && hist.iter().any(|x| x.t != p.t && x.inv > p.inv && x.ret < p.ret && (matches!(x.op, Op::Scan(_)) || (matches!(x.op, Op::Ex(_) | Op::Get(_)) && x.op.key() == Some(k))))
+        }
+        _ => false,
+    })
+}
+
 // ------------------------------------------------------------------ one case
 
 /// the replayable input of a case (`line`, and `mutex` / `grants` of a real-mutex run) + details
@@ -1133,6 +1226,87 @@ struct Ctx<'a> {
     scan_observed: u32,
     /// take a `CrashProbe` before this grant (runs with a log only)
     crash_at: Option<usize>,
+    /// the log mode of the case being judged
+    cur_wal: Option<SyncMode>,
+    /// re-run every case of a store with a Bloom filter on the filter-free store, same step order
+    /// (Lean: `BloomProps.bloom_store_transparent`): trace, results, image, log must be the same
+    twin_always: bool,
+}
+
+/// the model command for a store variant: the filtered store has its own step machine
+fn run_cmd(variant: u8) -> &'static str {
+    if variant & 1 == 1 { "runb" } else { "run" }
+}
+
+/// per atomic step of a run: (thread, index of the operation in the thread's program)
+fn step_ops(o: &RunOut, nthreads: usize) -> Vec<(usize, usize)> {
+    let mut next = vec![0usize; nthreads];
+    o.steps
+        .iter()
+        .map(|(t, site, _)| {
+            if site.starts_with("store.") {
+                next[*t] += 1;
+            }
+            (*t, next[*t].saturating_sub(1))
+        })
+        .collect()
+}
+
+/// one scripted run (mirror of the log mutex), re-run while the scheduler misses its stall window
+fn scripted(progs: &[Vec<Op>], wal: Option<SyncMode>, variant: u8, sched: &[usize]) -> Option<RunOut> {
+    for _ in 0..6 {
+        let o = run_real(progs, wal, variant, None, true, false, |i, _, _| sched.get(i).copied());
+        if !o.unexplained {
+            return Some(o);
+        }
+    }
+    None
+}
+
+/// Greedy shrinker of a failing (programs, step order): drop one operation at a time together with
+/// its atomic steps, keep the smaller case when the scripted run still executes as written and
+/// `fails`; then drop the threads that have become empty.
+fn shrink_case(progs: &[Vec<Op>], wal: Option<SyncMode>, variant: u8, first: &RunOut, fails: &mut dyn FnMut(&[Vec<Op>], &RunOut) -> bool) -> (Vec<Vec<Op>>, Vec<usize>) {
+    let mut cur: Vec<Vec<Op>> = progs.to_vec();
+    let mut sched: Vec<usize> = first.sched.clone();
+    let mut map = step_ops(first, cur.len());
+    let mut budget = 120;
+    loop {
+        let mut changed = false;
+        for t in 0..cur.len() {
+            let mut i = cur[t].len();
+            while i > 0 && budget > 0 {
+                i -= 1;
+                budget -= 1;
+                let mut cand = cur.clone();
+                cand[t].remove(i);
+                let csched: Vec<usize> = sched.iter().zip(map.iter()).filter(|(_, m)| **m != (t, i)).map(|(s, _)| *s).collect();
+                if let Some(o2) = scripted(&cand, wal, variant, &csched) {
+                    if !o2.deviated && !o2.panicked && fails(&cand, &o2) {
+                        map = step_ops(&o2, cand.len());
+                        sched = o2.sched.clone();
+                        cur = cand;
+                        changed = true;
+                    }
+                }
+            }
+        }
+        if !changed || budget == 0 {
+            break;
+        }
+    }
+    // renumber: drop empty threads
+    let keep: Vec<usize> = (0..cur.len()).filter(|t| !cur[*t].is_empty()).collect();
+    if keep.len() < cur.len() && !keep.is_empty() {
+        let cand: Vec<Vec<Op>> = keep.iter().map(|t| cur[*t].clone()).collect();
+        let csched: Vec<usize> = sched.iter().filter_map(|t| keep.iter().position(|k| k == t)).collect();
+        if let Some(o2) = scripted(&cand, wal, variant, &csched) {
+            if !o2.deviated && !o2.panicked && fails(&cand, &o2) {
+                return (cand, o2.sched);
+            }
+        }
+    }
+    (cur, sched)
 }
 
 impl Ctx<'_> {
@@ -1178,11 +1352,49 @@ impl Ctx<'_> {
         };
         let ps = show_progs(progs);
         // the model is asked about the order of the atomic steps; a replay needs the grants
-        let line = format!("run {} {} {}", if wal.is_some() { 1 } else { 0 }, ps, show_sched(&o.sched));
+        let variant = self.variant;
+        let line = format!("{} {} {} {}", run_cmd(variant), if wal.is_some() { 1 } else { 0 }, ps, show_sched(&o.sched));
         let ans = self.model.ask(&line);
         let real_mutex = self.real_mutex;
         let grants_s = show_sched(&o.grants);
-        let input = || if real_mutex { json!({"line": line, "mutex": "real", "grants": grants_s}) } else { json!({"line": line}) };
+        let input = || {
+            let mut v = if real_mutex { json!({"line": line, "mutex": "real", "grants": grants_s}) } else { json!({"line": line}) };
+            if variant != 0 {
+                v["store_variant"] = json!(variant);
+                v["store"] = json!(["plain", "bloom_filter", "instrumentation", "bloom_filter_and_instrumentation"][variant as usize & 3]);
+            }
+            v
+        };
+        self.cur_wal = wal;
+        // "the filter knows every visible key", probed at every scheduling decision of the run
+        match &o.filter_probe {
+            None => self.rep.hit("oracle:slabs_and_store_agree_at_every_step"),
+            Some(fp) => {
+                let class = "tensor_store.bloom_filter/key_visible_in_slabs_reported_absent";
+                let what = "while every worker was parked: the slabs hold the key (SlabRouter::exists / get find it, a scan lists it) and the store's own exists / get say it is absent - the negative fast path of the Bloom filter answered for a key the filter has not been told about, so a reader that has seen the key (in a scan, or through a completed put) is then told it does not exist";
+                let mut inp = with(&input(), json!({"key": fp.key.show(), "fails_after_steps": fp.at_step, "probe": fp.what, "real_trace": o.trace, "real_history": o.hist_s}));
+                if !real_mutex && self.viol_count.get(class).copied().unwrap_or(0) < 3 {
+                    // shrink: fewest operations with which the scripted run still fails the probe
+                    let (sp, ss) = shrink_case(progs, wal, variant, &o, &mut |_, o2| o2.filter_probe.is_some());
+                    if let Some(o2) = scripted(&sp, wal, variant, &ss) {
+                        if let Some(fp2) = &o2.filter_probe {
+                            let sline = format!("{} {} {} {}", run_cmd(variant), if wal.is_some() { 1 } else { 0 }, show_progs(&sp), show_sched(&ss));
+                            inp = with(&inp, json!({"line": sline, "original_line": line, "key": fp2.key.show(), "fails_after_steps": fp2.at_step, "probe": fp2.what, "real_trace": o2.trace, "real_history": o2.hist_s}));
+                        }
+                    }
+                }
+                self.violation(class, what, inp);
+            }
+        }
+        if variant & 1 == 1 && self.twin_always && !real_mutex {
+            if let Some(d) = self.twin(progs, wal, &o) {
+                self.violation(
+                    "tensor_store.bloom_filter/answers_differ_from_filter_free_store",
+                    "the same programs in the same step order on a store without a Bloom filter give other results: the filter is not invisible",
+                    with(&input(), d),
+                );
+            }
+        }
         if real_mutex {
             self.rep.hit(if o.waits.is_empty() { "real_mutex:nobody_waited" } else { "real_mutex:durable_writer_waited_for_real_log_mutex" });
             for w in &o.waits {
@@ -1284,7 +1496,7 @@ impl Ctx<'_> {
     /// of the run cut at the same step.
     fn crash_probe(&mut self, progs: &[Vec<Op>], o: &RunOut, cp: &CrashProbe) {
         let prefix: Vec<usize> = o.sched[..cp.at_step.min(o.sched.len())].to_vec();
-        let line = format!("run 1 {} {}", show_progs(progs), show_sched(&prefix));
+        let line = format!("{} 1 {} {}", run_cmd(self.variant), show_progs(progs), show_sched(&prefix));
         self.rep.case("crash.mid_run", Some(&line));
         self.rep.hit(if cp.inflight.is_some() { "crash:while_a_durable_write_holds_the_mutex" } else { "crash:nobody_inside_a_durable_write" });
         let ans = self.model.ask(&line);
@@ -1366,6 +1578,32 @@ impl Ctx<'_> {
         self.durable_oracle(progs, true, &o, &json!({"line": line, "mutex": "real", "grants": show_sched(sched)}), &[]);
     }
 
+    /// `BloomProps.bloom_store_transparent` asked of the real store: the same programs in the same
+    /// order of atomic steps on the store built WITHOUT the filter (otherwise the same variant).
+    /// Some(details) when trace, results, final image, log or recovered image differ.
+    fn twin(&mut self, progs: &[Vec<Op>], wal: Option<SyncMode>, o: &RunOut) -> Option<serde_json::Value> {
+        let t = match scripted(progs, wal, self.variant & !1, &o.sched) {
+            Some(t) => t,
+            None => {
+                self.rep.hit("twin:discarded_scheduler_stall");
+                return None;
+            }
+        };
+        self.rep.hit("twin:same_steps_on_filter_free_store");
+        let same = t.trace == o.trace && t.hist_s == o.hist_s && t.image == o.image && t.wal == o.wal && t.rimage == o.rimage;
+        if same {
+            self.rep.hit("oracle:filtered_store_equals_filter_free_store");
+            return None;
+        }
+        let first = o.hist.iter().find(|r| !t.hist.iter().any(|q| q.t == r.t && q.i == r.i && q.res == r.res));
+        Some(json!({
+            "first_result_that_differs": first.map(|r| format!("t{}:{} -> {} on the store with the filter, {} without", r.t, r.op.show(), r.res.show(),
+                t.hist.iter().find(|q| q.t == r.t && q.i == r.i).map_or("(not completed)".to_string(), |q| q.res.show()))),
+            "real_history": o.hist_s, "filter_free_history": t.hist_s, "real_trace": o.trace, "filter_free_trace": t.trace,
+            "image": o.image, "filter_free_image": t.image,
+        }))
+    }
+
     fn oracles(&mut self, progs: &[Vec<Op>], wal: bool, o: &RunOut, base: &serde_json::Value) {
         // (a) linearizability of the recorded real history; an operation occupies the time from its
         //     CALL (for a durable write that waited for the mutex: the grant, not the log step) to
@@ -1435,6 +1673,19 @@ impl Ctx<'_> {
                 self.rep.observe(input);
             }
             return self.durable_oracle(progs, wal, o, base, &incoherent);
+        }
+        if !ok && self.variant & 1 == 1 && !self.real_mutex {
+            // a store with a Bloom filter: before the failure is filed under a class of the
+            // filter-free code, ask the filter-free store for the same steps
+            let w = self.cur_wal;
+            if let Some(d) = self.twin(progs, w, o) {
+                self.violation(
+                    "tensor_store.bloom_filter/history_not_linearizable_and_differs_from_filter_free_store",
+                    "no order of the completed operations that respects real time is a legal sequential execution of the key→value map, and the same programs in the same step order on a store without a Bloom filter give other results",
+                    with(base, d),
+                );
+                return self.durable_oracle(progs, wal, o, base, &incoherent);
+            }
         }
         if !ok {
             let (cls, mix) = classify_nonlin(&hist);
@@ -1579,7 +1830,9 @@ fn main() {
             if let Some(progs) = parse_progs(f[2]) {
                 let real_mutex = v["failing_input"]["mutex"].as_str() == Some("real");
                 let sched = parse_sched(if real_mutex { v["failing_input"]["grants"].as_str().unwrap_or(f[3]) } else { f[3] });
-                let mut ctx = Ctx { rep: &mut rep, model: &mut model, viol_count: BTreeMap::new(), budget_hits: 0, stalls: 0, exclusive_emb: false, real_mutex, variant: 0, scan_observed: 0, crash_at: None };
+                // the store of the failing run: `runb` = built with a Bloom filter; `store_variant` as in `run_real`
+                let variant = (v["failing_input"]["store_variant"].as_u64().unwrap_or(0) as u8 & 3) | u8::from(f[0] == "runb");
+                let mut ctx = Ctx { rep: &mut rep, model: &mut model, viol_count: BTreeMap::new(), budget_hits: 0, stalls: 0, exclusive_emb: false, real_mutex, variant, scan_observed: 0, crash_at: None, cur_wal: None, twin_always: true };
                 let mut r = root.fork("replay");
                 let wal = if f[1] == "1" { Some(SyncMode::Immediate) } else { None };
                 if let Some(o) = ctx.case("replay", &progs, wal, Some(&sched), &mut r, true) {
@@ -1592,9 +1845,108 @@ fn main() {
     }
 
     let scale: u64 = if args.thorough { 12 } else { 1 };
-    let mut ctx = Ctx { rep: &mut rep, model: &mut model, viol_count: BTreeMap::new(), budget_hits: 0, stalls: 0, exclusive_emb: false, real_mutex: false, variant: 0, scan_observed: 0, crash_at: None };
+    let mut ctx = Ctx { rep: &mut rep, model: &mut model, viol_count: BTreeMap::new(), budget_hits: 0, stalls: 0, exclusive_emb: false, real_mutex: false, variant: 0, scan_observed: 0, crash_at: None, cur_wal: None, twin_always: false };
 
-    // ---- FIRST: prefix scans over keys that are arbitrary strings, sequential and directed
+    // ---- FIRST: stores built WITH a Bloom filter (`with_bloom_filter`, `with_bloom_and_instrumentation`,
+    //      `open_durable_with_bloom`; recovered with `recover_with_bloom`), directed (deterministic for
+    //      every seed).  `get` / `exists` answer "absent" from the filter alone, `scan` reads the slabs:
+    //      the guard is that a put tells the filter about its key BEFORE the key becomes visible.  The
+    //      shortest history in which that guard is the only thing between the code and a violation:
+    //      the FIRST put of a key (afterwards the key stays in the filter for good) with a reader that
+    //      scans and then asks for the key while the put is in progress.  Every case: model (`runb`),
+    //      the probe "whatever the router finds the store finds" at every scheduling decision, the
+    //      same steps on the filter-free store (must be identical), Wing-Gong, recovered = live.
+    {
+        ctx.twin_always = true;
+        let mut r = root.fork("directed.bloom");
+        let g = |t: u32| Val { tag: t, vec: VecF::Good(t) };
+        let n = |t: u32| Val { tag: t, vec: VecF::N };
+        // the interleaving of `BloomProps.late_add_witness` (from the model): on the code as it is the
+        // reader's exists says true and its get finds the value
+        {
+            let name = "bloom_late_add";
+            let w = ctx.model.ask(&format!("witness {name}"));
+            let f: Vec<&str> = w.split(' ').collect();
+            match (f.get(1).and_then(|p| parse_progs(p)), f.len() == 3) {
+                (Some(progs), true) => {
+                    for variant in [1u8, 3] {
+                        ctx.variant = variant;
+                        let before: u32 = ctx.viol_count.values().sum();
+                        match ctx.case(&format!("witness.{name}"), &progs, None, Some(&parse_sched(f[2])), &mut r, true) {
+                            Some(_) => {
+                                let after: u32 = ctx.viol_count.values().sum();
+                                ctx.rep.hit(&format!("{}:{name}", if after > before { "witness_reproduced_on_real_store" } else { "witness_not_reproduced_on_real_store" }));
+                            }
+                            None => ctx.rep.disagree("witness.stalled", json!({"witness": name}), "scheduler stalled on every attempt", ""),
+                        }
+                    }
+                }
+                _ => ctx.rep.disagree("witness.driver", json!({"witness": name}), "", &w),
+            }
+        }
+        // the first put of a key of every class, plain and durable, with the reader (scan of the class
+        // prefix, exists, get) placed after each number of the writer's atomic steps
+        for cls in CLASSES {
+            let k = Key::new(cls, 1);
+            let reader = vec![Op::Scan(Key::of(cls.prefix())), Op::Ex(k), Op::Get(k)];
+            for durable in [false, true] {
+                let v = if cls == Cls::E { g(1) } else { n(1) };
+                let progs = vec![vec![if durable { Op::PutD(k, v) } else { Op::Put(k, v) }], reader.clone()];
+                // steps of the writer; steps of the reader's get after `pos` writer steps
+                let (wsteps, get_steps): (usize, Vec<usize>) = match (cls, durable) {
+                    (Cls::E, false) => (3, vec![1, 2, 3, 3]),
+                    (Cls::E, true) => (4, vec![1, 2, 2, 3, 3]),
+                    (Cls::C, _) | (_, false) => (1, vec![1, 1]),
+                    (_, true) => (2, vec![1, 1, 1]),
+                };
+                for pos in 0..=wsteps {
+                    let mut sched = vec![0; pos];
+                    sched.extend(std::iter::repeat(1).take(2 + get_steps[pos]));
+                    sched.extend(std::iter::repeat(0).take(wsteps - pos));
+                    for variant in if durable { vec![1u8] } else { vec![1u8, 3] } {
+                        ctx.variant = variant;
+                        let wal = if durable { Some(SyncMode::Immediate) } else { None };
+                        if let Some(o) = ctx.case("directed.bloom.first_put_and_reader", &progs, wal, Some(&sched), &mut r, true) {
+                            if reader_inside_first_put(&o.hist) {
+                                ctx.rep.hit("bloom:reader_inside_first_put");
+                            }
+                        }
+                    }
+                }
+            }
+        }
+        // neighbours, by seeded schedules: a key that is deleted and put again (it never leaves the
+        // filter); keys nobody ever put (the pure fast path) beside a put of another key; two writers
+        // of one fresh emb: key and two readers; deletes of keys the filter has never heard of
+        let (e1, e2, p1, p2, c1) = (Key::new(Cls::E, 1), Key::new(Cls::E, 2), Key::new(Cls::P, 1), Key::new(Cls::P, 2), Key::new(Cls::C, 1));
+        let scan = |c: Cls| Op::Scan(Key::of(c.prefix()));
+        let neighbours: Vec<(&str, Vec<Vec<Op>>)> = vec![
+            ("delete_and_put_again", vec![vec![Op::Put(e1, g(1)), Op::Del(e1), Op::Put(e1, n(2))], vec![scan(Cls::E), Op::Ex(e1), Op::Get(e1), scan(Cls::E), Op::Ex(e1)]]),
+            ("never_put_keys", vec![vec![Op::Put(p1, n(1)), Op::Put(e1, g(2))], vec![Op::Get(p2), Op::Ex(p2), Op::Get(e2), Op::Ex(e2), Op::Del(p2), Op::Del(e2), Op::Scan(Key::of(""))]]),
+            ("two_writers_two_readers", vec![vec![Op::Put(e1, g(1))], vec![Op::Put(e1, g(2))], vec![scan(Cls::E), Op::Ex(e1), Op::Get(e1)], vec![Op::Ex(e1), Op::Scan(Key::of("")), Op::Get(e1)]]),
+            ("first_puts_of_three_classes", vec![vec![Op::Put(p1, n(1)), Op::Put(c1, n(2)), Op::Put(e2, g(3))], vec![Op::Scan(Key::of("")), Op::Ex(p1), Op::Ex(c1), Op::Ex(e2)], vec![Op::Get(e2), Op::Get(c1), Op::Get(p1)]]),
+        ];
+        for (name, progs) in neighbours {
+            for i in 0..(6 * scale) {
+                ctx.variant = if i % 2 == 0 { 1 } else { 3 };
+                if let Some(o) = ctx.case(&format!("directed.bloom.{name}"), &progs, None, None, &mut r, true) {
+                    if reader_inside_first_put(&o.hist) {
+                        ctx.rep.hit("bloom:reader_inside_first_put");
+                    }
+                }
+            }
+            // the same with every write durable, on a store opened with `open_durable_with_bloom`
+            let dprogs: Vec<Vec<Op>> = progs.iter().map(|p| p.iter().map(|op| match op { Op::Put(k, v) => Op::PutD(*k, *v), Op::Del(k) => Op::DelD(*k), o => *o }).collect()).collect();
+            for _ in 0..(2 * scale) {
+                ctx.variant = 1;
+                ctx.case(&format!("directed.bloom.{name}.durable"), &dprogs, Some(SyncMode::Manual), None, &mut r, true);
+            }
+        }
+        ctx.variant = 0;
+        ctx.twin_always = false;
+    }
+
+    // ---- prefix scans over keys that are arbitrary strings, sequential and directed
     //      (deterministic for every seed): prefixes without an end key (`next_prefix` = None: the
     //      regression cases of the over-return repaired by 27855097), prefixes that cut across key classes, the empty key, keys that
     //      resemble a class prefix, characters of 1-4 bytes; with and without the log
@@ -1885,6 +2237,31 @@ fn main() {
         ctx.variant = 0;
     }
 
+    // ---- seeded: first puts of fresh keys racing readers that scan and then ask, on stores built
+    //      with a Bloom filter (plain, with the access tracker, durable); every case also on the
+    //      filter-free store in the same step order
+    {
+        ctx.twin_always = true;
+        let stream = "random.bloom_first_puts";
+        let mut r = root.fork(stream);
+        let mut g = Gen { next_tag: 0 };
+        for i in 0..(150 * scale) {
+            let nthreads = 2 + (i % 4) as usize; // 2..=5
+            let durable = i % 3 == 2;
+            let progs = g.first_puts(&mut r, durable, nthreads);
+            let wal = if durable { Some(if i % 12 == 2 { SyncMode::Immediate } else { SyncMode::Manual }) } else { None };
+            ctx.variant = if durable || i % 2 == 0 { 1 } else { 3 };
+            if let Some(o) = ctx.case(stream, &progs, wal, None, &mut r, true) {
+                if reader_inside_first_put(&o.hist) {
+                    ctx.rep.hit("bloom:reader_inside_first_put");
+                    ctx.rep.hit("bloom:random_case_with_reader_inside_first_put");
+                }
+            }
+        }
+        ctx.variant = 0;
+        ctx.twin_always = false;
+    }
+
     // ---- keys and prefixes that are arbitrary strings (see `PIECES`): 1-4 threads, a quarter of
     //      the operations prefix scans; without and with the log (recovered = live per key)
     for (stream, durable, n) in [("random.odd_keys", false, 100u64), ("random.odd_keys_durable", true, 40)] {
@@ -1999,6 +2376,9 @@ fn main() {
         "store:plain", "store:bloom_filter", "store:instrumentation", "store:bloom_filter_and_instrumentation",
         "scan:prefix_without_end_key", "scan:prefix_with_end_key", "scan:empty_prefix", "scan:class_prefix",
         "key:not_a_class_alias", "key:empty", "key:multibyte", "scan_prefix_without_end_key_is_exact_on_real_store",
+        "oracle:slabs_and_store_agree_at_every_step", "oracle:filtered_store_equals_filter_free_store",
+        "twin:same_steps_on_filter_free_store", "witness_not_reproduced_on_real_store:bloom_late_add",
+        "bloom:reader_inside_first_put", "bloom:random_case_with_reader_inside_first_put",
         "crash:while_a_durable_write_holds_the_mutex", "crash:nobody_inside_a_durable_write",
         "oracle:crash_mid_run_recovers_live_or_inflight_write_completed",
     ]
